@@ -99,6 +99,24 @@ def Wrapper.run {Orbit Lines Sat K : Type} (w : Wrapper Orbit Lines Sat K) (orbi
 def Wrapper.runDelta {Orbit Lines Sat K : Type} (w : Wrapper Orbit Lines Sat K) (orbit : Orbit) (epochUs : Nat) (deltaUs : Int) : List K :=
   w.run orbit (epochUs + deltaUs).toNat
 
+/-! ## The requested date as an instant
+
+A `Date` is an instant — `tai`: the reading of the TAI clock, microseconds since 0001-01-01T00:00:00 — that carries the
+Earth-orientation record of its own day — `off`: TAI − UTC in microseconds on that day (0 without a database, a step
+function of the day with a database that knows the inserted seconds).  `date.change_scale("UTC")` reads the UTC clock
+at that instant with the date's OWN record: `tai − off`.  `Date − Date` is the elapsed time `tai − tai'`. -/
+
+/-- `date.change_scale("UTC").datetime`, microseconds -/
+def utcReading (tai off : Int) : Int := tai - off
+
+/-- `Sgp4.propagate(date)` for the instant `tai` whose day has TAI − UTC = `off` -/
+def Wrapper.runInstant {Orbit Lines Sat K : Type} (w : Wrapper Orbit Lines Sat K) (orbit : Orbit) (tai off : Int) : List K :=
+  w.run orbit (utcReading tai off).toNat
+
+/-- NOT what the wrapper does — the shortcut "UTC datetime of the epoch + (date − epoch)": the epoch's UTC reading moved by the
+ELAPSED time.  `Props/C07.lean: elapsed_route_eq_iff` — it is the UTC reading of the date iff TAI − UTC is the same at the epoch
+and at the date (no second was inserted in between). -/
+def elapsedRoute (taiEpoch offEpoch tai : Int) : Int := utcReading taiEpoch offEpoch + (tai - taiEpoch)
 
 /-! ## The binding logic as a state machine
 
